@@ -34,6 +34,69 @@ def kind_table(run: Run, model: PyModel, ts, pid: str = "C01", rid: str = "R3") 
     return table
 
 
+def notes_in_file_order(run: Run, model: PyModel) -> None:
+    """`Page.notes` (the observation point of the property) evaluated abstractly on a page whose sections nest unevenly: the section-less part first, then per H1
+    its own blocks, then each H2 with its blocks and, below it, its H3s and H4s -- i.e. the order in which the items stand in the file (depth first), each note once."""
+    from ..absint import Interp, Raised, State
+    from ..absval import HObj, Ref
+
+    P = "zorg.domain.models._page"
+    fi = model.func(f"{P}.Page.notes")
+    st = State()
+    counter = [0]
+
+    def L(*xs):
+        return st.alloc(HObj("list", items=list(xs)))
+
+    def blk(k):
+        ns = []
+        for _ in range(k):
+            counter[0] += 1
+            ns.append(f"n{counter[0]:02d}")
+        return st.alloc(HObj("obj", cls=f"{P}.Block", fields=dict(section=None, notes=L(*ns))))
+
+    def sec(level, title, blocks, subs=()):
+        fields = dict(title=title, blocks=L(*blocks))
+        if level < 4:
+            fields[f"h{level + 1}s"] = L(*subs)
+        return st.alloc(HObj("obj", cls=f"{P}.H{level}", fields=fields))
+
+    # the construction order below IS the file order (notes are numbered as they are created)
+    b0 = blk(1)
+    h0_h2 = (lambda b: sec(2, "early", [b]))(blk(1))
+    h0 = sec(1, "", [b0], [h0_h2])
+    a_blocks = [blk(2), blk(1)]
+    a2_b = blk(1)
+    a3_b = blk(1)
+    a4_b = blk(2)
+    a3 = sec(3, "a3", [a3_b], [sec(4, "a4", [a4_b])])
+    a3b = (lambda b: sec(3, "a3b", [b]))(blk(1))
+    a2 = sec(2, "a2", [a2_b], [a3, a3b])
+    a2b_b = blk(1)
+    a2b_3 = (lambda b: sec(3, "a2b3", [b]))(blk(1))
+    a2b = sec(2, "a2b", [a2b_b], [a2b_3])
+    a2c = (lambda b: sec(2, "a2c", [b]))(blk(1))
+    A = sec(1, "A", a_blocks, [a2, a2b, a2c])
+    B = (lambda b: sec(1, "B", [b]))(blk(1))
+    page = st.alloc(HObj("obj", cls=f"{P}.Page", fields=dict(path=None, has_errors=False, events=L(), h0=h0, h1s=L(A, B))))
+    want = [f"n{i:02d}" for i in range(1, counter[0] + 1)]
+    I = Interp(model)
+    try:
+        res = I.run_function(f"{P}.Page.notes", [page], st=st)
+    except Exception as e:  # noqa: BLE001
+        run.undecided("C01.R4", "Page.notes", f"cannot interpret: {type(e).__name__}: {str(e)[:100]}")
+        return
+    run.floor("Page.notes evaluations", len(res), 1)
+    for v, s in res:
+        if isinstance(v, Raised) or s.imprecise or not isinstance(v, Ref) or s.obj(v).kind != "list" or s.obj(v).setlike:
+            run.undecided("C01.R4", "Page.notes", (f"raises {v.exc}" if isinstance(v, Raised) else "; ".join(s.imprecise[:2]) or f"returns {v!r}"))
+            continue
+        got = list(s.obj(v).items)
+        run.check("C01.R4", "Page.notes lists every note once, in file order (sections depth first)", got == want, "Page.notes", f"order {got}",
+                  f"for a page with unevenly nested sections (an H2 with H3/H4 children followed by sibling H2s) Page.notes yields {got}, expected {want}: notes are not in the order of the file "
+                  "(or are lost / repeated)", file=fi.file, node=fi.node)
+
+
 def check(run: Run) -> None:
     model = PyModel(run.repo)
     run.rule("C01.R1", "handler agreement: every enter*/exit* override names a grammar rule / listener method; the walker hooks are not overridden")
@@ -117,6 +180,7 @@ def check(run: Run) -> None:
 
     # kind, priority, identity, body and look-alike words: generic items driven through the listener in walker order
     item_rules(run, model, ts.tree0, "C01.R3", "C01.R4", "C01.R5")
+    notes_in_file_order(run, model)
     todo_values = sorted(v for v in members if v != "-")
     run.check("C01.R3", "todo_prefix tokens == NoteType todo values", lits == todo_values, "ZorgFileParser/NoteType", f"{lits} vs {todo_values}",
               f"the grammar's todo prefixes {lits} differ from NoteType's todo values {todo_values}", file=FILE)
